@@ -164,7 +164,13 @@ func vC02AuthCase(t *testing.T, tr *vC02Trace, g *vC02Gen, zin *vC02Zone, useNSE
 		}
 		if r.Intn(6) == 0 {
 			a, b := cands[r.Intn(len(cands))], cands[r.Intn(len(cands))]
-			if vC02Sub(a, z.apex) && vC02Sub(b, z.apex) {
+			collides := false // a second RR at an existing owner would join that RRset (and must be spelled alike)
+			for _, rc := range recsN {
+				if vC02Key(rc.owner) == vC02Key(a) {
+					collides = true
+				}
+			}
+			if !collides && vC02Sub(a, z.apex) && vC02Sub(b, z.apex) {
 				recsN = append(recsN, vC02Rec{owner: a, next: b, types: []uint16{dns.TypeA, dns.TypeRRSIG, dns.TypeNSEC}, class: 1, note: "made-up"})
 				genuine = append(genuine, false)
 				polluted = "made-up"
